@@ -111,7 +111,20 @@ def run(repo: Repo, tier: str) -> Report:
         return isinstance(t, ast.Subscript) and isinstance(t.value, ast.Name) and t.value.id == yy and isinstance(t.slice, ast.Name) \
             and t.slice.id == ii
 
+    # a scalar accumulator that is stored into the cell (`acc = 0; ...; acc += xx[jj]; ...; yy[ii] = acc`) stands for the cell
+    proxies = set()
+    for n in cfg.stmt_nodes():
+        st = n.stmt
+        if n.kind == "stmt" and isinstance(st, ast.Assign) and is_cell(st.targets[0]) and isinstance(st.value, ast.Name) and st.value.id not in (nodata,):
+            if any(isinstance(m.stmt, ast.AugAssign) and isinstance(m.stmt.target, ast.Name) and m.stmt.target.id == st.value.id for m in cfg.stmt_nodes() if m.kind == "stmt"):
+                proxies.add(st.value.id)
+    _is_cell_only = is_cell
+
+    def is_cell(t):  # noqa: F811
+        return _is_cell_only(t) or (isinstance(t, ast.Name) and t.id in proxies)
+
     S, A, WHOLE = [], [], []
+    OTHER = []
     for n in cfg.stmt_nodes():
         st = n.stmt
         if n.kind != "stmt":
@@ -125,6 +138,8 @@ def run(repo: Repo, tier: str) -> Report:
             A.append(n)
         elif isinstance(st, ast.Assign) and is_cell(st.targets[0]) and isinstance(st.value, ast.BinOp):
             A.append(n)
+        elif isinstance(st, ast.AugAssign) and is_cell(st.target):
+            OTHER.append(n)
     rep.floor("rolling_sum sentinel stores", len(S), 1)
     rep.floor("rolling_sum accumulation statements", len(A), 1)
     rep.analysed = {"rolling_sum": {"sentinel_stores": len(S), "accumulations": len(A), "cfg_nodes": len(cfg.nodes)}}
@@ -132,6 +147,9 @@ def run(repo: Repo, tier: str) -> Report:
     def ob(rule, role, ok, detail="", stmt=None, kind="", fn="rolling_sum"):
         rep.ob(rule, FILE, fn, role, ok, detail, stmt if stmt is not None else role, kind=kind)
 
+    for o_ in OTHER:
+        ob("R-FORMULA", "the cell is only ever added to (a window sum has no subtraction / scaling step)", False,
+           f"`{norm_stmt(o_.stmt)}`: an incremental update carries rounding and the state of earlier windows (sentinels included) into later ones", o_.stmt)
     a_ids = {n.id for n in A}
     justs = []
     for s in S:
@@ -162,7 +180,7 @@ def run(repo: Repo, tier: str) -> Report:
                     just = "prefix position (incomplete window)"
         if just is None:
             for a in atoms_raw:
-                if a.startswith("eq0[") and a.endswith("]"):
+                if (a.startswith("eq0[") or a.startswith("le0[")) and a.endswith("]") and a[4:-1].isidentifier():
                     cnt = a[4:-1]
                     # counter: zeroed in the iteration before the window loop, incremented next to every accumulation
                     incs = [n for n in cfg.stmt_nodes() if n.kind == "stmt" and isinstance(n.stmt, ast.AugAssign)
@@ -232,7 +250,10 @@ def run(repo: Repo, tier: str) -> Report:
     zero_all = any(isinstance(st, ast.Assign) and isinstance(st.targets[0], ast.Subscript) and ast.unparse(st.targets[0]) == f"{yy}[:]"
                    and isinstance(st.value, ast.Constant) and st.value.value == 0 for st in rs.node.body)
     zero_cell = any(n.kind == "stmt" and isinstance(n.stmt, ast.Assign) and is_cell(n.stmt.targets[0]) and isinstance(n.stmt.value, ast.Constant)
-                    and n.stmt.value.value == 0 for n in cfg.stmt_nodes())
+                    and n.stmt.value.value == 0 and (not isinstance(n.stmt.targets[0], ast.Name) or loops.get(id(n.stmt)) == [outer.stmt])
+                    for n in cfg.stmt_nodes())
+    if proxies:
+        zero_all = False        # the accumulator, not the output, must be reset for every position
     ob("R-MUSTWRITE", "every output cell starts from 0 before accumulation", zero_all or zero_cell, "no `yy[:] = 0` / `yy[ii] = 0`", f"{yy}[:] = 0")
 
     # prefix / trim agreement
